@@ -59,6 +59,8 @@ def classify(pid, hname, hcfg, hres, obl_reg):
         elif st == 'FAILURE':
             if c['category'] == 'unwind' or 'unwinding assertion' in d:
                 unwind_fail.append(c)
+            elif hcfg.get('expected_panics') and re.search(hcfg['expected_panics'], d):
+                n_auto_ok += 1  # a documented panic of the code under contract, part of the harness' premise
             else:
                 auto_fail.append(c)
     # auto (verifier-generated) checks
@@ -101,13 +103,6 @@ def classify(pid, hname, hcfg, hres, obl_reg):
             if unwind_fail and hcfg.get('unwind_obl'):
                 continue  # UNDETERMINED because of the unwinding failure, which is itself reported
             undec.append('%s: obligation %s has status %s' % (hname, obl, '/'.join(sorted(set(sts)))))
-    for d, st in covers:
-        if st not in ('SATISFIED', 'COVERED'):
-            if unwind_fail and hcfg.get('unwind_obl'):
-                continue
-            if failed:
-                continue
-            undec.append('%s: cover not satisfied (vacuity guard): %s [%s]' % (hname, d, st))
     return discharged, failed, undec, covers, len(hres['checks']), unreach
 
 
@@ -155,6 +150,8 @@ def main():
     replay_texts = {}
     rewrites = []
     unreachable_in = {}
+    cover_status = {}
+    injected = set()
     all_stubs = []
     try:
         with shv.Scratch(keep=a.keep) as sc:
@@ -167,8 +164,12 @@ def main():
                         hs = {h: hc for h, hc in hs.items() if re.search(a.only, h)}
                     if not hs:
                         continue
-                    for rel, hf in unit['inject']:
-                        sc.inject(rel, hf)
+                    for inj in unit['inject']:
+                        rel, hf = inj[0], inj[1]
+                        tag = (rel, hf)
+                        if tag not in injected:
+                            sc.inject(rel, hf, *(inj[2:3]))
+                            injected.add(tag)
                         files_scanned.add(hf)
                     for rel, pat, rep, mn in unit.get('rewrite', []):
                         n = sc.rewrite(rel, pat, rep, mn)
@@ -189,13 +190,15 @@ def main():
                             continue
                         hres = r['harnesses'][h]
                         d, f, u, cov, n, unr = classify(pid, h, hc, hres, P.OBLIGATIONS)
+                        for cd, cst in cov:
+                            cover_status.setdefault(cd, []).append((cst, h, bool(f) or hres['status'] != 'Success'))
                         for o in unr:
-                            if o.startswith(pid + '.'):
+                            if P.belongs(o, pid):
                                 unreachable_in.setdefault(o, []).append(h)
                         total_checks += n
                         solver_s += hres.get('solver_s') or 0.0
                         for k, v in d.items():
-                            if not k.startswith(pid + '.'):
+                            if not P.belongs(k, pid):
                                 continue
                             v = dict(v, engine='kani/cbmc', solver=hres['cbmc_stats'] and 'cadical' or 'cadical', harness_time_s=hres['duration_s'])
                             if hc.get('kind', 'proved') == 'bounded' or P.OBLIGATIONS.get(k, {}).get('kind', 'proved').startswith('bounded'):
@@ -204,7 +207,7 @@ def main():
                             else:
                                 discharged.setdefault(k, v)
                         for k, v in f.items():
-                            if k.startswith(pid + '.'):
+                            if P.belongs(k, pid):
                                 failed[k] = dict(v, unit=uname)
                                 tail = r['stdout_tail']
                                 i = tail.find('Checking harness')
@@ -220,13 +223,13 @@ def main():
                     total_checks += r.get('n_checks', 0)
                     solver_s += r.get('solver_s', 0.0)
                     for k, v in r.get('discharged', {}).items():
-                        if k.startswith(pid + '.'):
+                        if P.belongs(k, pid):
                             if P.OBLIGATIONS.get(k, {}).get('kind', 'proved').startswith('bounded'):
                                 bounded_ok[k] = dict(v, bound=v.get('bound') or P.OBLIGATIONS[k]['kind'])
                             else:
                                 discharged.setdefault(k, v)
                     for k, v in r.get('failed', {}).items():
-                        if k.startswith(pid + '.'):
+                        if P.belongs(k, pid):
                             failed[k] = v
                             replays_extra[k] = r.get('raw', '')[-4000:]
                             if v.get('replayed'):
@@ -253,7 +256,7 @@ def main():
         undec.append(str(e))
 
     # registered obligations of this property for this tier must all be decided (vacuity guard)
-    expected = [o for o, r in P.OBLIGATIONS.items() if r['prop'] == pid and (a.tier == 'thorough' or r.get('tier', 'quick') == 'quick')]
+    expected = [o for o, r in P.OBLIGATIONS.items() if P.belongs(o, pid) and (a.tier == 'thorough' or r.get('tier', 'quick') == 'quick')]
     if not a.only:
         for o in expected:
             reg = P.OBLIGATIONS[o]
@@ -269,6 +272,10 @@ def main():
         if o not in P.OBLIGATIONS:
             undec.append('obligation %s is not registered in props.OBLIGATIONS' % o)
 
+    # vacuity guard: every cover goal must be satisfied in at least one harness (unless a violation was found there)
+    for cd, lst in cover_status.items():
+        if not any(st in ('SATISFIED', 'COVERED') for st, _, _ in lst) and not any(fl for _, _, fl in lst):
+            undec.append('cover goal satisfied in no harness (vacuity guard): %s [%s]' % (cd, ', '.join('%s:%s' % (h_, st) for st, h_, _ in lst)))
     for o, hs_ in unreachable_in.items():
         if o not in discharged and o not in failed and o not in bounded_ok:
             undec.append('obligation %s is unreachable in every harness that states it (%s): vacuous' % (o, ', '.join(hs_)))
